@@ -159,7 +159,7 @@ def consistentClauses (g : Gm) (d : List DNode) (rootStates : List Nat) : List S
                         (match findNode d parent with | some r => r.parts | none => [])
         if findNode d parent |>.isNone then acc ++ [s!"orphan_node at {n.path}"] else
         n.parts.foldl (fun acc x =>
-          let ok := pparts.any (fun s => !(g.isTerm s && false) &&
+          let ok := pparts.any (fun s =>
             (if g.isTerm s then x % g.nb == s % g.nb && k == 0
              else (g.out.getD ((s % g.nb) * g.amax + a) []).any (fun oc => oc.1 == x % g.nb && oc.2.1 == k)) &&
             (if g.layered then x / g.nb == (if s / g.nb + 1 ≥ g.tcap then g.tcap - 1 else s / g.nb + 1) else x / g.nb == s / g.nb))
